@@ -832,68 +832,92 @@ func runB12(p *an.Prog, r *an.Result) {
 	// when end is the largest int (i <= end cannot become false), appending for ever.
 	r.Counts["range results"]++
 	var byCount, byValue bool
-	var lenCall *ssa.Call
-	an.EachInstr(arrFn, func(in ssa.Instruction) {
-		if c, ok := in.(*ssa.Call); ok && c.Call.StaticCallee() == lenFn {
-			lenCall = c
-		}
-	})
-	an.EachInstr(arrFn, func(in ssa.Instruction) {
-		ph, ok := in.(*ssa.Phi)
-		if !ok {
-			return
-		}
-		step := false
-		var init ssa.Value
-		for _, e := range ph.Edges {
-			if t := norm(e); t.v == ssa.Value(ph) && t.off == 1 {
-				step = true
-			} else {
-				init = e
+	// the loop may sit in a helper of AsArray (rangeToArray(r))
+	for _, f := range unitWithHelpers(p, arrFn) {
+		var lenCall *ssa.Call
+		boundIsLen := func(v ssa.Value) bool {
+			if lenCall != nil && v == ssa.Value(lenCall) {
+				return true
 			}
-		}
-		if !step || init == nil || ph.Referrers() == nil {
-			return
-		}
-		// the loop test compares the counter - or, in a rotated loop, the counter just stepped - with the bound
-		var tests []*ssa.BinOp
-		an.EachInstr(arrFn, func(x ssa.Instruction) {
-			if bo, ok := x.(*ssa.BinOp); ok {
-				if t := norm(bo.X); t.v == ssa.Value(ph) && (t.off == 0 || t.off == 1) {
-					switch bo.Op {
-					case token.LSS, token.LEQ:
-						tests = append(tests, bo)
+			// len(a) for a := make([]any, Len())
+			if lc := an.CallOf(v); lc != nil {
+				if bi, ok := lc.Value.(*ssa.Builtin); ok && bi.Name() == "len" && len(lc.Args) == 1 {
+					for _, o := range an.Origins(lc.Args[0], an.StepValue) {
+						mk, ok := o.(*ssa.MakeSlice)
+						if !ok || lenCall == nil || mk.Len != ssa.Value(lenCall) {
+							return false
+						}
 					}
+					return true
+				}
+			}
+			return false
+		}
+		an.EachInstr(f, func(in ssa.Instruction) {
+			if c, ok := in.(*ssa.Call); ok && c.Call.StaticCallee() == lenFn {
+				lenCall = c
+			}
+		})
+		an.EachInstr(f, func(in ssa.Instruction) {
+			ph, ok := in.(*ssa.Phi)
+			if !ok {
+				return
+			}
+			step := false
+			var init ssa.Value
+			for _, e := range ph.Edges {
+				if t := norm(e); t.v == ssa.Value(ph) && t.off == 1 {
+					step = true
+				} else {
+					init = e
+				}
+			}
+			if !step || init == nil || ph.Referrers() == nil {
+				return
+			}
+			// the loop test compares the counter - or, in a rotated loop, the counter just stepped - with the bound
+			var tests []*ssa.BinOp
+			an.EachInstr(f, func(x ssa.Instruction) {
+				if bo, ok := x.(*ssa.BinOp); ok {
+					if t := norm(bo.X); t.v == ssa.Value(ph) && (t.off == 0 || t.off == 1) {
+						switch bo.Op {
+						case token.LSS, token.LEQ:
+							tests = append(tests, bo)
+						}
+					}
+				}
+			})
+			for _, bo := range tests {
+				// k from 0 tested k < n, or the compiler's form of `for k := range a`: k from -1, stepped, then tested k+1 < len(a)
+				c0, isC := an.ConstInt(init)
+				stepped := norm(bo.X).off == 1
+				if isC && (c0 == 0 || c0 == -1 && stepped) && bo.Op == token.LSS && lenCall != nil && boundIsLen(bo.Y) {
+					// what is appended is start + k
+					an.EachInstr(f, func(in2 ssa.Instruction) {
+						// ... or Index(k), which is start + k (checked above)
+						if c2, ok := in2.(*ssa.Call); ok && c2.Call.StaticCallee() == idxFn && len(c2.Call.Args) == 2 && norm(c2.Call.Args[1]).v == ssa.Value(ph) && norm(c2.Call.Args[1]).off == 0 {
+							byCount = true
+						}
+						if mi, ok := in2.(*ssa.MakeInterface); ok {
+							lf := linOf(mi.X, 0)
+							okForm := lf.c == -c0 && len(lf.coef) == 2
+							for at, cf := range lf.coef {
+								if cf != 1 || !(at == ssa.Value(ph) || fieldOf(f, at) == "b") {
+									okForm = false
+								}
+							}
+							if okForm {
+								byCount = true
+							}
+						}
+					})
+				}
+				if fieldOf(f, init) == "b" && (bo.Op == token.LEQ || bo.Op == token.LSS) && fieldOf(f, norm(bo.Y).v) == "e" {
+					byValue = true
 				}
 			}
 		})
-		for _, bo := range tests {
-			if c, isC := an.ConstInt(init); isC && c == 0 && bo.Op == token.LSS && lenCall != nil && bo.Y == ssa.Value(lenCall) {
-				// what is appended is start + k
-				an.EachInstr(arrFn, func(in2 ssa.Instruction) {
-					// ... or Index(k), which is start + k (checked above)
-					if c2, ok := in2.(*ssa.Call); ok && c2.Call.StaticCallee() == idxFn && len(c2.Call.Args) == 2 && norm(c2.Call.Args[1]).v == ssa.Value(ph) && norm(c2.Call.Args[1]).off == 0 {
-						byCount = true
-					}
-					if mi, ok := in2.(*ssa.MakeInterface); ok {
-						lf := linOf(mi.X, 0)
-						okForm := lf.c == 0 && len(lf.coef) == 2
-						for at, cf := range lf.coef {
-							if cf != 1 || !(at == ssa.Value(ph) || fieldOf(arrFn, at) == "b") {
-								okForm = false
-							}
-						}
-						if okForm {
-							byCount = true
-						}
-					}
-				})
-			}
-			if fieldOf(arrFn, init) == "b" && (bo.Op == token.LEQ || bo.Op == token.LSS) && fieldOf(arrFn, norm(bo.Y).v) == "e" {
-				byValue = true
-			}
-		}
-	})
+	}
 	switch {
 	case byValue:
 		r.Bad(an.FuncName(arrFn), "walks i = start; i <= end; i++", an.FuncPos(arrFn), "a loop that runs while i <= end never ends when end is the largest int: the counter wraps around and the array grows until memory is exhausted; count the elements instead (k < Len(), start + k)")
@@ -1826,7 +1850,18 @@ func runF14(p *an.Prog, r *an.Result) {
 				r.Counts["strconv formatter calls"]++
 				f, okF := an.ConstInt(c.Call.Args[off+1])
 				pr, okP := an.ConstInt(c.Call.Args[off+2])
-				if okF && okP && f == 'g' && pr == -1 {
+				// the bit size is the operand's own: a float32 printed as a 64-bit number shows the digits of its
+				// binary expansion (0.1 becomes 0.10000000149011612), which fmt.Sprint does not
+				bits, okBits := an.ConstInt(c.Call.Args[off+3])
+				wantBits := int64(64)
+				if cv, isConv := c.Call.Args[off].(*ssa.Convert); isConv {
+					if b, isB := cv.X.Type().Underlying().(*types.Basic); isB && b.Kind() == types.Float32 {
+						wantBits = 32
+					}
+				}
+				if okF && okP && f == 'g' && pr == -1 && (!okBits || bits != wantBits) {
+					r.Bad(name, cn+" with the bit size of another type", c.Pos(), fmt.Sprintf("%s formats a %d-bit float with bit size %d: fmt.Sprint prints a float32 with the shortest digits that identify it as a float32, so the number reads differently as a filter argument or receiver than printed", name, wantBits, bits))
+				} else if okF && okP && f == 'g' && pr == -1 {
 					r.OK(name, cn+" in fmt's own format", c.Pos(), "'g' with the shortest precision is what fmt.Sprint prints")
 				} else {
 					r.Bad(name, cn+" in a format fmt.Sprint does not use", c.Pos(), fmt.Sprintf("%s formats a float with %s in a format other than ('g', -1): the same number then reads differently as a filter argument or receiver (0.00001) than printed ({{ x }} gives 1e-05)", name, cn))
